@@ -4,6 +4,9 @@ import json, os, subprocess
 HERE = os.path.dirname(os.path.abspath(__file__))
 
 CHECKS = {
+ "C02": dict(cat="exploration", tech="runtime monitoring: type-directed generated programs + boundary catalogue; run-time kind of every printed value (H-KIND hook) compared with the static type text of `typeof`, failures classified against the language-defined whitelist",
+   text="Seeded type-directed programs (classes, aliases, helper functions, typed variable pool of every type constructor, statements in module/function/closure/method/constructor/loop/branch contexts) and a catalogue of boundary cases of the typing rules are run with typed printing. An accepted program must end ok or with a language-defined dynamic failure (anything else - 'X is invalid', 'not a function', load before store, ... - is a dynamic type error), and for each `typeof e` / `e` pair the run-time kind tree must conform to the static type. Held = no deviation other than listed known findings.",
+   note="Trusted: H-KIND kind printer; the whitelist of defined failure messages in core.classify_failure; generator over-approximates typing (rejected programs are outside the quantifier and only counted).", ref="§3 C02"),
  "C17": dict(cat="exploration", tech="runtime monitoring: failing programs over a failure-kind x call-chain catalogue; merged output stream, exit status and printed trace compared with the shadow call stack rebuilt from the activation enter/exit hook events",
    text="Every defined dynamic failure kind (35 kinds) is provoked at call depths 0-6 through chains of functions, closures, methods, constructors, map/filter callbacks, recursion and functions of an imported module, inside if/else/while/from blocks. Each run must exit 1 with the interpreter's error report (a Rust panic is a deviation), all output printed before the failure must precede the report, the printed function frames must equal the activations open at the error (from H-TRACE) and the generator's call chain, and a failed assert must name file:line:col. Held = no deviation other than listed known findings.",
    note="Trusted: activation enter/exit hook events; block and native frames are excluded from 'functions and methods'. Panicking failure kinds are recorded genuine defects (known_findings.json).", ref="§3 C17"),
